@@ -1,2 +1,141 @@
-import Depccg.Read.Text
-import Depccg.Print.Text
+/-
+  C08  AUTO text written by depccg reads back to the same tree.
+  Property theorems only; the statements are in Depccg/Props/C08Defs.lean (with the shared
+  definitions of Depccg/Props/TextDefs.lean), helper lemmas in Depccg/Proofs/C08Lemmas.lean.
+-/
+import Depccg.Props.C08Defs
+import Depccg.Proofs.C08Lemmas
+
+namespace Depccg.C08
+open Depccg Str Print Read TextProps
+
+/-- printing never fails on trees whose tokens have a word -/
+theorem auto_total : AutoTotalStatement := fun t h => ⟨autoOf_total t h, conllOf_total t h⟩
+
+/-- `autoImage` keeps categories, shape and head flags -/
+theorem auto_image_skel : AutoImageSkelStatement := fun _ _ _ h => autoImage_skel h
+
+/-- printing the tree that was read reproduces the line exactly -/
+theorem auto_reprint : AutoReprintStatement := fun _ _ _ _ _ hs hi => autoOf_image hs hi
+
+/-- reading a printed AUTO line yields the image of the tree, and the reader's token list is the
+    token list of that tree -/
+theorem auto_roundtrip : AutoRoundtripStatement := by
+  intro lang t s hc ho ht hs
+  obtain ⟨t', hi⟩ := autoImage_total lang t hc ho ht
+  exact ⟨t', hi, readAutoLine_printed lang t t' s hc ht hs hi⟩
+
+/-- the last conll column, joined by blanks, is the AUTO line -/
+theorem conll_fragments : ConllFragmentsStatement :=
+  fun t s c htok hpos hcat hs hc => conll_fragments_aux t s c htok hpos hcat hs hc
+
+/-- every well-formed category is left alone by the CCGbank repair -/
+theorem fixcat_id : FixCatIdStatement := fun c hc => fixCat_of_endsOK (endsOK_str c hc)
+
+/-! ### the hypotheses are satisfiable -/
+
+section examples
+
+private def cNP : Cat := .atom (lit "NP") (.un none)
+private def cS : Cat := .atom (lit "S") (.un (some (lit "dcl")))
+private def cVP : Cat := .fn cS cBSlash cNP
+
+/-- `NP` "(" and `S[dcl]\NP` "runs" under `S[dcl]`, labelled `ba` -/
+private def exTree : Tree :=
+  .bin cS (lit "ba") (lit "<") false
+    (.leaf cNP [(lit "word", lit "("), (lit "pos", lit "NN")] (lit "lex") (lit "<lex>"))
+    (.leaf cVP (Token.ofWord (lit "runs")) (lit "lex") (lit "<lex>"))
+
+private theorem wfNP : C05.WF cNP :=
+  ⟨⟨by decide, by decide⟩, trivial, fun _ => rfl⟩
+
+private theorem wfS : C05.WF cS :=
+  ⟨⟨by decide, by decide⟩, ⟨⟨by decide, by decide⟩, by decide⟩, by decide⟩
+
+private theorem wfVP : C05.WF cVP := ⟨wfS, by decide, wfNP⟩
+
+private theorem okNP : CatOK cNP := ⟨wfNP, by decide, by decide⟩
+private theorem okS : CatOK cS := ⟨wfS, by decide, by decide⟩
+private theorem okVP : CatOK cVP := ⟨wfVP, by decide, by decide⟩
+
+private theorem exCats : AllCats CatOK exTree := ⟨okS, okNP, okVP⟩
+
+private theorem exSys : AllCats (OneSystem .en) exTree := ⟨trivial, trivial, trivial, trivial⟩
+
+private theorem exToks : AllToks TokOK exTree := by
+  refine ⟨⟨⟨_, rfl⟩, ?_⟩, ⟨⟨_, rfl⟩, ?_⟩⟩ <;> (simp only [PlainWord]; decide)
+
+/-- the printed line, evaluated -/
+private theorem exLine :
+    autoOf exTree = .ok (lit "(<T S[dcl] 1 2> (<L NP NN NN -LRB- NP>) (<L S[dcl]\\NP XX XX runs S[dcl]\\NP>) )") := by
+  decide +kernel
+
+/-- the image: the bracket word in its escaped spelling, reduced tokens, the guessed label -/
+private def exImage : Tree :=
+  .bin cS (lit "ba") (lit "<") false
+    (Tree.mkTerminal (autoToken (lit "-LRB-") (lit "NN") (lit "NN")) cNP)
+    (Tree.mkTerminal (autoToken (lit "runs") (lit "XX") (lit "XX")) cVP)
+
+private theorem exImage_eq : autoImage .en exTree = .ok exImage := by decide +kernel
+
+/-- the read-back, evaluated … -/
+example : readAutoLine .en
+    (lit "(<T S[dcl] 1 2> (<L NP NN NN -LRB- NP>) (<L S[dcl]\\NP XX XX runs S[dcl]\\NP>) )") =
+    .ok (exImage, exImage.tokens) := by decide +kernel
+
+/-- … and by the theorem -/
+example : ∃ t', autoImage .en exTree = .ok t' ∧
+    readAutoLine .en
+      (lit "(<T S[dcl] 1 2> (<L NP NN NN -LRB- NP>) (<L S[dcl]\\NP XX XX runs S[dcl]\\NP>) )") =
+      .ok (t', t'.tokens) :=
+  auto_roundtrip .en exTree _ exCats exSys exToks exLine
+
+/-- printing the image gives the same line, by the theorem and by evaluation -/
+example : autoOf exImage =
+    .ok (lit "(<T S[dcl] 1 2> (<L NP NN NN -LRB- NP>) (<L S[dcl]\\NP XX XX runs S[dcl]\\NP>) )") :=
+  auto_reprint .en exTree exImage _ exToks exLine exImage_eq
+
+example : autoOf exImage =
+    .ok (lit "(<T S[dcl] 1 2> (<L NP NN NN -LRB- NP>) (<L S[dcl]\\NP XX XX runs S[dcl]\\NP>) )") := by
+  decide +kernel
+
+example : skel exImage = skel exTree := auto_image_skel .en exTree exImage exImage_eq
+
+/-- the conll rows of the tree, evaluated; the last columns joined by blanks are the line -/
+private theorem exConll : conllOf exTree = .ok (lit
+    ("1\t-LRB-\t_\tNN\tNN\t_\t2\tNP\t_\t(<T S[dcl] 1 2> (<L NP NN NN -LRB- NP>)\n" ++
+     "2\truns\tXX\tXX\tXX\t_\t0\tS[dcl]\\NP\t_\t(<L S[dcl]\\NP XX XX runs S[dcl]\\NP>) )")) := by
+  decide +kernel
+
+example : lastColumns (lit
+    ("1\t-LRB-\t_\tNN\tNN\t_\t2\tNP\t_\t(<T S[dcl] 1 2> (<L NP NN NN -LRB- NP>)\n" ++
+     "2\truns\tXX\tXX\tXX\t_\t0\tS[dcl]\\NP\t_\t(<L S[dcl]\\NP XX XX runs S[dcl]\\NP>) )")) =
+    [lit "(<T S[dcl] 1 2> (<L NP NN NN -LRB- NP>)", lit "(<L S[dcl]\\NP XX XX runs S[dcl]\\NP>) )"] := by
+  decide +kernel
+
+private theorem exPos : AllToks (fun tok => ∃ p, Token.get? tok (lit "pos") = some p) exTree :=
+  ⟨⟨_, rfl⟩, ⟨_, rfl⟩⟩
+
+example : joinSep cSpace (lastColumns (lit
+    ("1\t-LRB-\t_\tNN\tNN\t_\t2\tNP\t_\t(<T S[dcl] 1 2> (<L NP NN NN -LRB- NP>)\n" ++
+     "2\truns\tXX\tXX\tXX\t_\t0\tS[dcl]\\NP\t_\t(<L S[dcl]\\NP XX XX runs S[dcl]\\NP>) )"))) =
+    lit "(<T S[dcl] 1 2> (<L NP NN NN -LRB- NP>) (<L S[dcl]\\NP XX XX runs S[dcl]\\NP>) )" :=
+  conll_fragments exTree _ _ exToks exPos exCats exLine exConll
+
+/-- the hypothesis on `pos` is needed: without it the conll column carries `_` where the AUTO
+    line carries `POS` -/
+example :
+    let t : Tree := .leaf cNP [(lit "word", lit "it")] (lit "lex") (lit "<lex>")
+    autoOf t = .ok (lit "(<L NP POS POS it NP>)") ∧
+    (conllOf t).map lastColumns = .ok [lit "(<L NP _ _ it NP>)"] := by
+  decide +kernel
+
+/-- the repair is the identity on the example categories, by the theorem; it is not on the
+    CCGbank spellings it is meant for -/
+example : fixCat cVP.str = cVP.str := fixcat_id cVP wfVP
+example : fixCat (lit "(S\\NP)[conj]") = lit "(S\\NP)" := by decide +kernel
+example : fixCat (lit "NP[conj]") = lit "NP[conj]" := by decide +kernel
+
+end examples
+
+end Depccg.C08
